@@ -3,6 +3,7 @@ from check import run_diff_property
 CFG = dict(
     streams=[('hpack', 600, 12000)],
     oracle_ops={'hprt', 'hpfrag'},
+    self_evident=lambda o, i: i.startswith('panic'),
     rule=("(a) encoder operation sequences (fields with any bytes in names/values, repeated fields, fields larger than the table, "
           "sensitive fields, SetMaxDynamicTableSize / Limit schedules): every WriteField's bytes and the table compared with the "
           "model; (b) ORACLE round trip: the real decoder on the real encoder's output must return the same fields, order and "
